@@ -34,6 +34,9 @@ SENTINEL = -9999.0
 # development aid: VH_C14_STRICT=1 judges under the other reading of the statement (weighted error estimates of a
 # one-member bin constrained to sqrt(1/w) and 0); the registered commands never set it
 STRICT = os.environ.get("VH_C14_STRICT") == "1"
+# development aid: VH_C14_ERR2X=1 also judges werr2 (sum(w^2 ..)-type estimate) at weight scales where w^2 leaves binary64
+ERR2X = os.environ.get("VH_C14_ERR2X") == "1"
+TRACE_CONSTS = {"StrictOneMember": STRICT, "JudgeErr2Extreme": ERR2X}
 
 # lattice concretisations: value = (x + off) * unit, second variable (y + yoff) * yunit, weight = w * wunit
 # (units dyadic); entries: (unit, off, wunit, dtype, yunit, yoff, ydtype)
@@ -61,13 +64,14 @@ INT31 = 2 ** 31 - 1
 
 BOUNDS = {
     "quick": dict(MaxLen=3, Vals=set(range(1, 6)), BinSizes={1, 2, 3}, NBinSet={1, 2, 3}, NPerSet={1, 2, 3, 4},
-                  MinVals={0, 2}, MaxVals={4}, TMaxLen=3, TVals={1, 2, 4}, TYVals={0, 3}, TWts={1, 4}),
+                  MinVals={0, 2}, MaxVals={4}, TMaxLen=3, TVals={1, 2, 4}, TYVals={0, 3}, TWts={1, 4}, NanLen=4, NanVals={1, 3, 5}),
     "thorough": dict(MaxLen=4, Vals=set(range(1, 6)), BinSizes={1, 2, 3}, NBinSet={1, 2, 3, 4}, NPerSet={1, 2, 3, 4, 5},
-                     MinVals={0, 2}, MaxVals={4, 7}, TMaxLen=4, TVals={1, 2, 4}, TYVals={0, 3}, TWts={1, 4}),
+                     MinVals={0, 2}, MaxVals={4, 7}, TMaxLen=4, TVals={1, 2, 4}, TYVals={0, 3}, TWts={1, 4}, NanLen=5, NanVals={1, 2, 3, 5}),
 }
 INVARIANTS = ["MechRefines", "MergeRefines", "MergeSafe", "ByNumSane", "MomentsSane", "RepDesignCovers", "RepCarriesNoValue",
-              "HistMechRefines", "ScaleLaw", "ScaleFormulasDefined"]
+              "HistMechRefines", "ScaleLaw", "ScaleFormulasDefined", "NanSortRefines", "WScaleLaw"]
 ACTIONS = ["ChooseData", "ChooseSpec", "ChooseX", "ChooseYW", "ChooseRepData", "ChooseRep", "HChooseData", "HEvent",
+           "ChooseNanData", "ChooseNanSpec", "NanSortIndex",
            "ChooseScalePattern", "ChooseScale", "HistPass", "NumPass", "NumConvert", "NumMerge", "NumKeep",
            "CalcStats", "Assemble"]
 
@@ -96,7 +100,7 @@ def represent(a, rep):
     if rep in _REPDT:
         with np.errstate(all="ignore"):
             r = a.astype(_REPDT[rep])
-        return r if np.array_equal(r.astype("f8"), a) else None
+        return r if np.array_equal(r.astype("f8"), a, equal_nan=True) else None
     if rep == "list":
         return [float(v) for v in a]
     if rep == "strided":
@@ -135,21 +139,34 @@ def lattice(c, k):
         wunit = 1.0
         if not ok(c["w"], wunit, 0, rep["w"]):
             rep["w"] = "f8"
-    return dict(unit=unit, off=off, wunit=wunit, dt=dt, yunit=yunit, yoff=yoff, ydt=ydt, rep=rep)
+    wdt = dt
+    if c.get("wexp", 0):                       # weight scale 2^wexp (exact); a representation that cannot hold it -> float64
+        wunit = wunit * 2.0 ** c["wexp"]
+        wdt = "f8"
+        if c["w"] and not ok(c["w"], wunit, 0, rep["w"]):
+            rep["w"] = "f8"
+    if c.get("nan"):                           # NaN needs a floating-point element type
+        if rep["x"] in ("i4", "i8", "i4be", "u1"):
+            rep["x"] = "f8"
+        if np.dtype(dt).kind != "f":
+            dt = "f8"
+    return dict(wdt=wdt, unit=unit, off=off, wunit=wunit, dt=dt, yunit=yunit, yoff=yoff, ydt=ydt, rep=rep)
 
 
 def concretise(c, L):
     rep = L["rep"]
     unit, off = L["unit"], L["off"]
 
-    def mk(vals, u, o, dt, r):
+    def mk(vals, u, o, dt, r, nan=None):
         a = np.array([(v + o) * u for v in vals], dtype="f8")
+        if nan:
+            a[np.array(nan) - 1] = np.nan
         if r == "f8":                            # the "native" slot keeps the lattice's own element type (f8 / i8 / f4)
             return a.astype(dt)
         return represent(a, r)
-    x = mk(c["x"], unit, off, L["dt"], rep["x"])
+    x = mk(c["x"], unit, off, L["dt"], rep["x"], nan=c.get("nan"))
     y = mk(c["y"], L["yunit"], L["yoff"], L["ydt"], rep["y"])
-    w = mk(c["w"], L["wunit"], 0, L["dt"], rep["w"]) if c["w"] else None
+    w = mk(c["w"], L["wunit"], 0, L["wdt"], rep["w"]) if c["w"] else None
     kw = {}
     if c["mode"] == "binsize":
         kw["binsize"] = c["b"] * unit
@@ -569,7 +586,7 @@ def signature(p, clause, c):
 def judge(ctx, recs, what, constants=None, _twin=False):
     big = len(recs) > 21000          # thorough-tier chunks: more, smaller TLC processes
     rejects = tracecheck.validate(ctx, "BinStatsTrace.tla", [tl_record(r) for r in recs],
-                                  what=what, constants=constants or {"StrictOneMember": STRICT},
+                                  what=what, constants=constants or TRACE_CONSTS,
                                   shard_size=3200 if big else 5000, max_shards=8 if big else 5, workers=2 if big else None)
     byid = {r["id"]: r for r in recs}
     # a rejected case given in a non-native representation is re-run in the native one (same values, same lattice slot):
@@ -583,7 +600,7 @@ def judge(ctx, recs, what, constants=None, _twin=False):
         saved = ctx.traces
         trej = tracecheck.validate(ctx, "BinStatsTrace.tla", [tl_record(r) for r in twins],
                                    what=what + " [native twins of rejected foreign-representation cases]",
-                                   constants={"StrictOneMember": STRICT})
+                                   constants=TRACE_CONSTS)
         ctx.traces = saved
         twin_fail = {rid: set(trej.get(n + 1, [])) for n, rid in enumerate(foreign)}
     for rid, failing in sorted(rejects.items()):
@@ -662,15 +679,22 @@ def seeded_cases(rng, n, maxlen, heavy):
         out.append({"x": x, "y": y, "w": w, "mode": mode, "b": b, "merge": merge,
                     "hasmin": hasmin, "min": rng.randrange(0, nv + 2) if hasmin else 0,
                     "hasmax": hasmax, "max": rng.randrange(0, nv + 2) if hasmax else 0,
-                    "rep": {"x": rng.choice(REPS), "y": rng.choice(REPS), "w": rng.choice(REPS)}})
+                    "rep": {"x": rng.choice(REPS), "y": rng.choice(REPS), "w": rng.choice(REPS)},
+                    "wexp": rng.choice([0, 0, -600, -400, 400, 600, 150, -900, 900]) if weighted else 0})
+        if hasmin and hasmax and rng.random() < 0.7:          # missing values (NaN) inside the data: in no bin
+            cse = out[-1]
+            pos = sorted(rng.sample(range(1, ln + 1), rng.randrange(1, max(2, ln // 2 + 1))))
+            cse["nan"] = pos
+            cse["x"] = [cse["max"] + 1 if j + 1 in pos else v for j, v in enumerate(cse["x"])]
     return out
 
 
 # ---- the check ------------------------------------------------------------------------------------------
 def run(ctx):
     B = BOUNDS[ctx.tier]
-    consts = dict(B, Kinds={"bins", "stats", "reps", "hist", "scale"}, RepFull=not ctx.quick, HistLen=3 if ctx.quick else 4,
-                  RestoreOnFail=False, ScaleBig=not ctx.quick, FixedWhist=True, MergeVariant="code", DoExport=False, StrictOneMember=False)
+    consts = dict(B, Kinds={"bins", "stats", "reps", "hist", "scale", "nan"}, RepFull=not ctx.quick, HistLen=3 if ctx.quick else 4,
+                  RestoreOnFail=False, ScaleBig=not ctx.quick, FixedWhist=True, MergeVariant="code", DoExport=False, StrictOneMember=False,
+                  JudgeErr2Extreme=False, SortVariant="argsort")
     # 1. design level: the mechanisms refine the property, the definitions are sane, no overflow - the whole space.
     #    Per-action coverage (vacuity guard) costs 3x: in the thorough tier it is taken on the quick bounds and the
     #    large space is explored without it (its state count is checked against the number of cases instead).
@@ -691,6 +715,11 @@ def run(ctx):
                      workers=1, allow_violation=True, coverage=False)      # one worker: deterministic state count
         if inv not in rb.violated:
             raise MachineryError("self-test failed: %s not violated by the deviating mechanism (%s)" % (inv, name))
+    rb = ctx.tlc("BinStatsMC.tla", what="self-test: 'already sorted (no `<` descent), skip the argsort' violates NanSortRefines",
+                 cfg_text=cfg(constants=dict(consts, Kinds={"nan"}, NanLen=3, SortVariant="skip"), invariants=["NanSortRefines"]),
+                 workers=1, allow_violation=True, coverage=False)
+    if "NanSortRefines" not in rb.violated:
+        raise MachineryError("self-test failed: NanSortRefines not violated by the deviating sort-index mechanism")
     rb = ctx.tlc("BinStatsMC.tla", what="self-test: failing dohist that restores the dictionary but not the range violates HistMechRefines",
                  cfg_text=cfg(constants=dict(consts, Kinds={"hist"}, HistLen=3, RestoreOnFail=True), invariants=["HistMechRefines"]),
                  workers=1, allow_violation=True, coverage=False)
@@ -769,11 +798,17 @@ def run(ctx):
     selftest(ctx, first["recs"], first["rej"])
     for need in ("empty_bins", "one_member_bins", "multi_member_bins", "merged_last_bins", "short_last_bins", "tied_values",
                  "rejected_no_data", "large_offset_records", "large_offset_interval_records", "histories_calc_after_rejected_call",
-                 "large_even_bins_with_distinct_y", "large_odd_bins"):
+                 "large_even_bins_with_distinct_y", "large_odd_bins", "nan_records", "nan_hidden_descent_records",
+                 "extreme_weight_scale_records_with_multi_member_bins", "mid_weight_scale_records"):
         # the census is taken from what the code returned: only meaningful (and only enforced) on a run without violations
         if not census.get(need) and not ctx.violations:
             raise MachineryError("vacuous run: no case with %s (%s)" % (need, census))
-    ctx.rule = ("[histories] every sequence of %d calls (12 kinds: dohist with 7 specifications x calc_stats on/off, 4 rejected ones - no "
+    ctx.rule = ("[NaN] every arrangement of NaN and finite values (length 1..%d over %s + NaN, at least one NaN: ascending runs separated "
+                "by NaN, descents hidden across a NaN, NaN first / last / adjacent) x 4 bin specifications x 2 (min, max) pairs, both limits "
+                "given: NaN is in no bin, reverse indices refer to the original array; [weight scale] every weighted case is run with "
+                "weights w * 2^wexp, wexp in {0, +-400, +-600} spread over the cases (seeded cases also +-900, 150), judged through the scale "
+                "covariance law (theorem WScaleLaw); " % (B["NanLen"], sorted(B["NanVals"])) +
+                "[histories] every sequence of %d calls (12 kinds: dohist with 7 specifications x calc_stats on/off, 4 rejected ones - no "
                 "data in range / no binning keyword -, calc_stats) on one Binner(x,y,weights) for 2 data arrays, and %d simulated "
                 "histories of %d calls, judged after every call; [scale] %d pattern x size cases (K replicas x NB blocks, bins of 128..8194 "
                 "members, even / odd, across 256) judged through the replication law; " % (consts["HistLen"], len(longh), hl, len(scalecases)) +
@@ -817,6 +852,11 @@ def run(ctx):
         "order); membership is judged on per-bin counts per pattern position (digest of the reverse indices), statistics through "
         "the replication law (theorem ScaleLaw, checked by explicit expansion for K <= 4); the order inside a large bin's "
         "reverse-index slice is not judged",
+        "NaN in the data: judged only when BOTH limits are given (then the bins are defined on the data within [min, max] and a NaN is "
+        "in no bin); without both limits the range itself is undefined and no such case is generated",
+        "weight scale 2^wexp: whist / 2^wexp and werr^2 * 2^wexp are recorded (exact transport by the law); at |wexp| >= 450, where "
+        "w^2 itself leaves the binary64 range, the sum(w^2 ..)-type estimate werr2 is NOT judged (JudgeErr2Extreme=FALSE): the unchanged "
+        "code returns 0 / inf there (reported as a lead with patch; VH_C14_ERR2X=1 judges it)",
         "representations: a variable whose representation cannot hold its lattice values exactly (float32 / integers / uint8 with a "
         "fractional unit, negative or 2^40 offset) is put on the plain integer lattice instead; the value handed over is always exact",
     ]
@@ -850,6 +890,17 @@ def structure_census(recs, cen):
             continue
         if len(set(c["x"])) < len(c["x"]):
             add("tied_values")
+        if c.get("nan"):
+            add("nan_records")
+            isn = [j + 1 in c["nan"] for j in range(len(c["x"]))]
+            vis = any(not isn[j] and not isn[j + 1] and c["x"][j + 1] < c["x"][j] for j in range(len(isn) - 1))
+            lim = [v for j, v in enumerate(c["x"]) if not isn[j] and c["min"] <= v <= c["max"]]
+            if not vis and lim != sorted(lim):
+                add("nan_hidden_descent_records")
+        if abs(c.get("wexp", 0)) >= 450 and c["w"] and any(u["p"]["hasw"] and any(h > 1 for h in u["o"]["hist"]) for u in r["runs"]):
+            add("extreme_weight_scale_records_with_multi_member_bins")
+        if 0 < abs(c.get("wexp", 0)) < 450 and c["w"]:
+            add("mid_weight_scale_records")
         if r["conc"] >= NBASE:
             add("large_offset_records")
             if any(rr["k"] == "ivl" for u in r["runs"] for rr in u["o"]["var"] + u["o"]["yvar"]):
@@ -934,7 +985,7 @@ def selftest(ctx, recs, rejects):
         if not expect:
             return           # a tree on which (nearly) every observation is already rejected
     rej = tracecheck.validate(ctx, "BinStatsTrace.tla", batch, what="self-test: corrupted records rejected", workers=1,
-                              constants={"StrictOneMember": STRICT})
+                              constants=TRACE_CONSTS)
     ctx.traces = saved
     bad_accept = set(expect) - set(rej)
     good_reject = set(rej) - set(expect)
@@ -984,7 +1035,7 @@ def selftest_hs(ctx, recs, rejects):
         if not expect:
             return
     rej = tracecheck.validate(ctx, "BinStatsTrace.tla", batch, what="self-test: corrupted history / scale records rejected", workers=1,
-                              constants={"StrictOneMember": STRICT})
+                              constants=TRACE_CONSTS)
     ctx.traces = saved
     bad_accept, good_reject = set(expect) - set(rej), set(rej) - set(expect)
     if bad_accept or good_reject:
